@@ -27,3 +27,14 @@ Definition serialize (k : encoding_kind) (v11 : bool) (version encoding : list N
   | Oob => Oob
   | Thrown c => Thrown c
   end.
+
+(* the same function with linear-time list reversal: this is what is extracted and run against the
+   library (serialize_fast_eq in SerUtfModel2.v: equal to [serialize]) *)
+Definition serialize_fast (k : encoding_kind) (v11 : bool) (version encoding : list N) (es : list event)
+  : res (list N) :=
+  let F := fam_of k in
+  match run (f_kbuf F) (document_items F v11 version encoding es) (wr_init (f_kbuf F)) with
+  | Ok w => Ok (rev_append (out_rev w) (rev_append (buf_rev w) []))
+  | Oob => Oob
+  | Thrown c => Thrown c
+  end.
